@@ -1,6 +1,10 @@
 (* Corr/C15.v — functions evaluated by the C15 correspondence run.
-   B: process_path(path, unparseable_are_text) on real temporary trees vs process_path_m on the
-   description of the same tree.  Tree descriptions use hex strings for names. *)
+   B:  process_path(path, unparseable_are_text) on real temporary trees vs process_path_m on the
+       description of the same tree (absolute root string + components).
+   Bs: process_path(typed string, ...) with the working directory at the tree's root vs
+       process_path_s (lookup_str / rjoin / walk_base / norm_root) on the typed string.
+   Bi: the path list of the s4 binary (argv with "-", bytes on stdin) vs args_of.
+   Tree descriptions use hex strings for names. *)
 From Coq Require Import String.
 From S4.Base Require Import Bytes.
 From S4.Model Require Import Classify Walk.
@@ -10,19 +14,21 @@ Open Scope N_scope.
 Inductive stree :=
 | SF (members : list (string * N * bool))
 | SD (children : list (string * stree))
-| SL (cname : string) (target : stree)
-| SO.
+| SL (cpath : list string) (target : stree)
+| SO
+| SS.
 
 Fixpoint to_tree (s : stree) : tree :=
   match s with
   | SF ms => File (map (fun m => let '(h, sz, isf) := m in (unhex h, sz, isf)) ms)
   | SD cs => Dir (map (fun nc => let '(h, c) := nc in (unhex h, to_tree c)) cs)
-  | SL c x => Link (unhex c) (to_tree x)
+  | SL c x => Link (map unhex c) (to_tree x)
   | SO => Other
+  | SS => Special
   end.
 
 (* canonical result record: (kind, path bytes, type code)
-   kind 1 Valid 2 Empty 3 NotSupported 4 NotAFile 5 NotExist 9 fuel *)
+   kind 1 Valid 2 Empty 3 NotSupported 4 NotAFile 5 NotExist 6 Err 7 outside the model 9 fuel *)
 Definition ppr_code (r : ppr) : N * bytes * N :=
   match r with
   | PValid p t => (1, p, result_code (RFile t))
@@ -31,6 +37,8 @@ Definition ppr_code (r : ppr) : N * bytes * N :=
   | PNotAFile p => (4, p, 0)
   | PNotExist p => (5, p, 0)
   | PFuel => (9, [], 0)
+  | PErr p => (6, p, 0)
+  | PEscape => (7, [], 0)
   end.
 
 Definition model_results (root_str : string) (t : stree) (uat : bool) (req : list string) : list (N * bytes * N) :=
@@ -53,3 +61,36 @@ Definition model_bad (cs : list case_t) : list (N * N) :=
   flat_map (fun ic => let '(i, (rs, t, uat, req, impl)) := ic in
                       let m := model_results rs t uat req in
                       if same m impl then [] else [(i, N.of_nat (length m))]) (index_from 0 cs).
+
+(* ---- Bs: typed strings, cwd = the tree's root ---- *)
+Definition model_results_s (t : stree) (uat : bool) (typed : string) : list (N * bytes * N) :=
+  map ppr_code (process_path_s sfx_table name_table junk junk_lead (to_tree t) uat (unhex typed)).
+
+(* case = (tree, unparseable_are_text, typed string, implementation results) *)
+Definition case_s := (stree * bool * string * list (N * string * N))%type.
+
+(* 999999: the model says the string leaves the modelled tree (not a disagreement; counted) *)
+Definition is_escape (m : list (N * bytes * N)) : bool :=
+  match m with [(7, _, _)] => true | _ => false end.
+
+Definition model_bad_s (cs : list case_s) : list (N * N) :=
+  flat_map (fun ic => let '(i, (t, uat, typed, impl)) := ic in
+                      let m := model_results_s t uat typed in
+                      if is_escape m then [(i, 999999)]
+                      else if same m impl then [] else [(i, N.of_nat (length m))]) (index_from 0 cs).
+
+(* ---- Bi: argv and the bytes of stdin ---- *)
+Fixpoint same_paths (a : list bytes) (b : list string) : bool :=
+  match a, b with
+  | [], [] => true
+  | p :: a', h :: b' => beqb p (unhex h) && same_paths a' b'
+  | _, _ => false
+  end.
+
+(* case = (argv, stdin bytes, the path list the implementation iterated over) *)
+Definition case_i := (list string * string * list string)%type.
+
+Definition model_bad_i (cs : list case_i) : list (N * N) :=
+  flat_map (fun ic => let '(i, (argv, inp, impl)) := ic in
+                      let m := args_of (map unhex argv) (unhex inp) in
+                      if same_paths m impl then [] else [(i, N.of_nat (length m))]) (index_from 0 cs).
